@@ -104,27 +104,50 @@ def strip_phases(spec, phase=None):
     return s
 
 
-def _compare_phase_with_static(tab_ph, ph, static_df, sig):
+def _scales(spec):
+    """Absolute accuracy of a converged solution: currents are resolved to about 1e-8 A
+    (numpy's default atol in the convergence test, known finding F18), which a series
+    resistance R turns into R*1e-8 V."""
+    rsum = 0.0
+    for n in spec["nodes"]:
+        rs = n["params"].get("rs", 0.0)
+        if n["kind"] in ("Source", "RLoss", "PSwitch", "PMux", "Rectifier"):
+            if isinstance(rs, list):
+                rsum += max(abs(x) for x in rs) if rs else 0.0
+            elif not isinstance(rs, dict):
+                rsum += abs(rs) * (2.0 if n["kind"] == "Rectifier" else 1.0)
+    return 1e-7, 1e-7 * (1.0 + rsum)
+
+
+def _compare_phase_with_static(tab_ph, ph, static_df, sig, spec=None):
     ts = Table(static_df)
+    abs_i, abs_v = _scales(spec) if spec is not None else (1e-7, 1e-7)
     for (p, name), r in tab_ph.by.items():
         if p != ph:
             continue
         rs = ts.by[("", name)]
-        # two independently converged solutions: 3e-5 relative; Loss is a difference of nearly
-        # equal voltages times a current, so its tolerance (and the efficiency's) is relative
-        # to the power flowing through the row, not to the loss itself
-        pw = max(abs(r["Power (W)"]), abs(rs["Power (W)"]),
-                 abs(r["Vin (V)"] * r["Iin (A)"]))
+        # two independently converged solutions: 3e-5 relative plus the solver's absolute
+        # resolution; Loss is a difference of nearly equal voltages times a current, so its
+        # tolerance (and the efficiency's) is relative to the power flowing through the row
+        vmax = max(abs(r["Vin (V)"]), abs(r["Vout (V)"]))
+        imax = max(abs(r["Iin (A)"]), abs(r["Iout (A)"]))
+        abs_p = abs_i * vmax + abs_v * imax
+        pw = max(abs(r["Power (W)"]), abs(rs["Power (W)"]), abs(r["Vin (V)"] * r["Iin (A)"]))
         for c in ("Vin (V)", "Vout (V)", "Iin (A)", "Iout (A)", "Power (W)", "Loss (W)",
                   "Efficiency (%)", "Warnings"):
-            extra = 0.0
-            if c == "Loss (W)":
-                extra = 3e-5 * pw
+            if c in ("Vin (V)", "Vout (V)"):
+                tol = abs_v
+            elif c in ("Iin (A)", "Iout (A)"):
+                tol = abs_i
+            elif c == "Power (W)":
+                tol = abs_p
+            elif c == "Loss (W)":
+                tol = abs_p + 3e-5 * pw
             elif c == "Efficiency (%)":
-                extra = 100.0 * 3e-5 * pw / max(pw, 1e-300) if pw > 0 else 0.0
-                if pw > 0 and isinstance(r[c], float) and isinstance(rs[c], float):
-                    extra = max(extra, 100.0 * (3e-5 * pw + 1e-7) / pw)
-            if not cell_eq(r[c], rs[c], rel=3e-5, abs_=1e-7 + extra):
+                tol = 100.0 * (2 * abs_p + 3e-5 * pw) / pw if pw > 0 else 1e-7
+            else:
+                tol = 0.0
+            if not cell_eq(r[c], rs[c], rel=3e-5, abs_=tol):
                 raise Fail(sig, "phase {!r}, {!r}: {} = {!r} but the phase-less system gives "
                            "{!r}".format(ph, name, c, r[c], rs[c]))
 
@@ -164,11 +187,11 @@ def body_meta(case, stats):
     if mode == "no_conf":
         static = solve_or_skip(B.build(strip_phases(spec)), stats)
         for ph in spec["phases"]:
-            _compare_phase_with_static(tab, ph, static, "noconf.differs")
+            _compare_phase_with_static(tab, ph, static, "noconf.differs", spec)
     elif mode == "loads_only":
         for ph in spec["phases"]:
             static = solve_or_skip(B.build(strip_phases(spec, ph)), stats)
-            _compare_phase_with_static(tab, ph, static, "loadtable.differs")
+            _compare_phase_with_static(tab, ph, static, "loadtable.differs", spec)
     stats.cls("solved")
     if mode == "full":
         if nontrivial(spec, tab):
